@@ -27,7 +27,9 @@ func init() {
 			// volume cycles, i.e. hundreds of thousands to millions of sub-steps per call
 			{Name: "storage-long", Variant: "plain", N: core.Tiered(6, 60), Run: c13Long, TimeoutS: 600},
 		},
-		RequireTags: func(string) []string { return []string{"spill", "empty", "substeps>1", "demand-met", "demand-above-max", "demand-below-min", "long-run"} },
+		RequireTags: func(string) []string { return []string{"empty", "long-run"} },
+		// observed through the sub-step hook (and sub-stepping itself is an implementation choice)
+		ExpectTags: func(string) []string { return []string{"spill", "substeps>1", "demand-met", "demand-above-max", "demand-below-min"} },
 	})
 }
 
